@@ -71,7 +71,7 @@ def jobs(tier):
 def requirements(tier):
     req = {"tree:histories": 60000 if tier == "quick" else 900000, "tree:insertion-checks": 300000, "tree:pair-checks": 5000000,
            "graph:histories": 10000, "graph:pair-checks": 200000, "registry:registrations": 100, "registry:probe-comparisons": 10000,
-           "registry:new-frame-roundtrips": 1000}
+           "registry:new-frame-roundtrips": 1000, "registry:origin-checks": 30, "registry:nested-orbit-frame": 10}
     return req
 
 
@@ -138,8 +138,18 @@ class Monitor:
                     self.fail("C20/invalid-route" + suffix, dict(w, path=pn), f"path({u}->{v}) = {pn} is not a chain of existing links")
                     continue
                 if len(pn) - 1 != dist[v]:
-                    self.fail("C20/tree-route-not-unique-chain" if forest else "C20/non-shortest-route-cyclic-graph", dict(w, path=pn, shortest=dist[v]),
-                              f"path({u}->{v}) = {pn} has {len(pn) - 1} links, shortest chain has {dist[v]}")
+                    if forest:
+                        key = "C20/tree-route-not-unique-chain"
+                    else:
+                        # known finding only if the recorded model of the pinned (stale depth-first) update predicts
+                        # exactly this route length for this insertion history; otherwise it is something new
+                        model = G.StaleDfsModel()
+                        for a, b in self.edges:
+                            model.add(a, b)
+                        key = ("C20/non-shortest-route-cyclic-graph" if model.length(u, v) == len(pn) - 1
+                               else "C20/non-shortest-route-cyclic-graph-not-explained-by-known-mechanism")
+                        w = dict(w, model_length=model.length(u, v))
+                    self.fail(key, dict(w, path=pn, shortest=dist[v]), f"path({u}->{v}) = {pn} has {len(pn) - 1} links, shortest chain has {dist[v]}")
                     continue
                 if [(a.name, b.name) for a, b in steps] != list(zip(pn, pn[1:])):
                     self.fail("C20/steps-disagree-with-path", dict(w, path=pn), "steps() is not the pairwise chain of path()")
@@ -270,10 +280,31 @@ def case_registry(ctx, job, idx, rng, st):
                 create_station(name, (rng.uniform(-89, 89), rng.uniform(-180, 360), rng.uniform(-400, 9000)))
             elif kind.startswith("orbit"):
                 coord, d = states[rng.randrange(3)]
-                parent = rng.choice(["EME2000", "MOD", "TEME"])
-                orb = Orbit(coord, d, "cartesian", "EME2000", Kepler()).copy(frame=parent)
                 orient = {"orbit-none": None, "orbit-qsw": "QSW", "orbit-tnw": "TNW"}[kind]
-                orbit2frame(name, orb, orientation=orient, parent=get_frame(parent))
+                nested = bool(registered) and rng.random() < 0.5
+                if nested:
+                    # the reference state is expressed in a previously registered frame (station, orbit frame, body frame):
+                    # the new centre hangs under that frame's centre, two or more links away from the Earth
+                    host = rng.choice(registered)
+                    ref_state = StateVector(coord, d, "cartesian", "EME2000").copy(frame=host)
+                    ctx.count("registry:nested-orbit-frame")
+                    if orient is None:
+                        orbit2frame(name, ref_state)
+                    else:
+                        orbit2frame(name, ref_state, orientation=orient)
+                    parent = "EME2000"
+                else:
+                    parent = rng.choice(["EME2000", "MOD", "TEME"])
+                    ref_state = Orbit(coord, d, "cartesian", "EME2000", Kepler()).copy(frame=parent)
+                    orbit2frame(name, ref_state, orientation=orient, parent=get_frame(parent))
+                # the chain of links to the new centre must place its own reference state at the origin
+                at = StateVector(coord, d, "cartesian", "EME2000").copy(frame=name)
+                off = float(np.linalg.norm(probe.arr(at)[:3]))
+                tol_o = 1e-5 + 1e-12 * (1.6e11 if any(r in ("Sun",) for r in registered) else 4.5e8)
+                ctx.count("registry:origin-checks")
+                ctx.resid("registry:reference-state-at-origin", off, tol_o, key="C20/orbit-frame-chain-misplaces-origin" + ("-nested" if nested else ""),
+                          witness=dict(w, new=name, host=host if nested else parent, offset=off),
+                          msg=f"the state used to create frame {name} is {off:.6g} m away from that frame's origin")
             else:
                 body = rng.choice(["Moon", "Sun"])
                 f = solarsystem.get_frame(body)
